@@ -110,8 +110,12 @@ def run(repo, verif, mfile, rfile):
     done = set()
     if Path(rfile).exists():
         done = {json.loads(l)["id"] for l in Path(rfile).read_text().splitlines() if l.strip()}
-    env = {"VERIF_REPO": repo}
+    env = {"VERIF_REPO": repo, "VERIF_NO_ESCALATE": "1"}
+    if os.environ.get("MUT_REVERSE"):
+        muts = list(reversed(muts))
     for m in muts:
+        if Path(rfile).exists():
+            done = {json.loads(l)["id"] for l in Path(rfile).read_text().splitlines() if l.strip()}
         if m["id"] in done:
             continue
         p = Path(repo) / m["file"]
